@@ -309,7 +309,7 @@ def rule_serde_enc(cx, tier):
                               f"{sorted(acc)}: Rust data of that kind does not survive the round trip", df.file, df.line))
             r.sample({"kind": kind, "produced": sorted(prod), "accepted": sorted(acc), "ok": not missing}, limit=16)
     r.analysed = {"kinds_checked": n}
-    r.floor("serde kinds with a producer/acceptor pair", n, 10)
+    r.floor("serde kinds with a producer/acceptor pair", n, 7)
     return r
 
 
@@ -329,7 +329,7 @@ def rule_parse_err(cx, tier):
                               f"parse or conversion panics instead of returning an error", fn.file, c.line))
         r.instances += 1
     r.analysed = {"functions": n}
-    r.floor("functions in the interchange libraries", n, 9)
+    r.floor("functions in the interchange libraries", n, 6)
     r.nontrivial = max(r.nontrivial, 2)
     return r
 
@@ -416,5 +416,5 @@ def rule_serde_narrow(cx, tier):
                               f"before calling {m.group(0)}: an integer outside the type's range is clamped and a fractional "
                               f"float is truncated instead of being reported as out of range", fn.file, c.line))
     r.analysed = {"integer_visitor_calls_in_deserialize_methods": n}
-    r.floor("integer visitor calls in Deserializer::deserialize_*", n, 8)
+    r.floor("integer visitor calls in Deserializer::deserialize_*", n, 6)
     return r
